@@ -304,7 +304,10 @@ def simp1(t):
             if other[0] in ('tuple', 'list', 'dict', 'obj', 'lpvar', 'lpproblem', 'fstr', 'comp', 'cat', 'lambda', 'dictcomp', 'accum', 'upd', 'sum', 'closure', 'slice') \
                     or (other[0] == 'call' and other[1] in (S('lpSum'), S('LpAffineExpression'), S('list'), S('tuple'), S('dict'), S('set'), S('sorted'), S('str'), S('len'), S('range'))) \
                     or (other[0] == 'const' and other[1] is not None) \
-                    or (other[0] == 'bin' and other[1] in ('Add', 'Sub', 'Mult')):
+                    or (other[0] == 'bin' and other[1] in ('Add', 'Sub', 'Mult')) \
+                    or (other[0] == 'idx' and other[1][0] == 'attr' and other[1][2] == 'project_closures' and other[2][0] != 'slice'):
+                # (the closure table holds one LpVariable per project: the declaration rules of the LP checks read its
+                #  construction, an entry is never None)
                 return C(op in ('NotEq', 'IsNot'))          # a constructed value is never None
         if op in ('Eq', 'Is') and a == b and a[0] != 'top':
             return None  # syntactically equal symbolic terms: leave (could be NaN-like); rules decide
@@ -433,6 +436,13 @@ def simp1(t):
                 return ('attr', args[0], f[2][0][1])               # attrgetter('a')(x)  is  x.a
             if gname == 'itemgetter':
                 return simp(('idx', args[0], f[2][0])) or ('idx', args[0], f[2][0])
+        if f[0] == 'call' and len(args) == 1 and len(f[2]) > 1 and all(x[0] == 'const' for x in f[2]) and not (len(f) > 3 and f[3]) and not (len(t) > 3 and t[3]):
+            g_ = f[1]
+            gname = g_[1] if g_[0] == 'sym' else (g_[2] if g_[0] == 'attr' and g_[1] == ('sym', 'operator') else None)
+            if gname == 'attrgetter' and all(isinstance(x[1], str) and '.' not in x[1] for x in f[2]):
+                return ('tuple', tuple(('attr', args[0], x[1]) for x in f[2]))       # attrgetter('a', 'b')(x)  is  (x.a, x.b)
+            if gname == 'itemgetter':
+                return ('tuple', tuple(('idx', args[0], x) for x in f[2]))
         if f[0] == 'attr' and f[2] in ('lower', 'upper', 'strip', 'title', 'capitalize') and not args and f[1][0] == 'const' and isinstance(f[1][1], str) and not (len(t) > 3 and t[3]):
             return C(getattr(f[1][1], f[2])())
         if f[0] == 'attr' and f[2] in ('items', 'keys', 'values') and f[1][0] == 'dict' and not args and not (len(t) > 3 and t[3]):
@@ -567,3 +577,31 @@ def split_paths(t, facts=None):
         ff = facts_of(t[1], False, dict(facts))
         return split_paths(t[2], ft) + split_paths(t[3], ff)
     return [(facts, t)]
+
+
+def affine_form(t):
+    """integer-affine normal form of a term built from +, -, unary minus and integer constants over opaque atoms:
+    -> (frozenset of (atom, coefficient), constant) ; anything else is one atom"""
+    coef, const = {}, 0
+    def go(x, k):
+        nonlocal const
+        if x[0] == 'const' and isinstance(x[1], int) and not isinstance(x[1], bool):
+            const += k * x[1]
+        elif x[0] == 'bin' and x[1] in ('Add', 'Sub'):
+            go(x[2], k)
+            go(x[3], k if x[1] == 'Add' else -k)
+        elif x[0] == 'un' and x[1] == 'USub':
+            go(x[2], -k)
+        elif x[0] == 'bin' and x[1] == 'Mult' and x[2][0] == 'const' and isinstance(x[2][1], int) and not isinstance(x[2][1], bool):
+            go(x[3], k * x[2][1])
+        elif x[0] == 'bin' and x[1] == 'Mult' and x[3][0] == 'const' and isinstance(x[3][1], int) and not isinstance(x[3][1], bool):
+            go(x[2], k * x[3][1])
+        else:
+            coef[x] = coef.get(x, 0) + k
+    go(t, 1)
+    return frozenset((a, c) for a, c in coef.items() if c), const
+
+
+def affine_equal(a, b):
+    """a == b as integer-affine expressions (n - 1 + 1 is n)"""
+    return a == b or affine_form(a) == affine_form(b)
